@@ -53,7 +53,7 @@ def oracle_c01(w):
     out = []
     E = parse(w.log)
     H = hinfo(w.sc)
-    for (idx, vid, expected) in w.side['expect']:
+    for (idx, vid, expected, spec, ename) in w.side['expect']:
         # the I entries of this dispatch: between this D and the end of the handler loop;
         # an event is dispatched once, so all `I vid h 0` after idx belong to it (timers re-fire: skip)
         if id(w.events.get(vid)) in w.fired_twice:
@@ -61,6 +61,12 @@ def oracle_c01(w):
         got = [int(e[2]) for e in E[idx:] if e[0] == 'I' and int(e[1]) == vid and e[3] == '0']
         if len(got) != len(set(got)):
             out.append(('duplicate-delivery', f'event {vid}: a handler was invoked twice: {got}'))
+        gone = sorted(h for h in set(got) if h in H and (h, ename) not in spec and (h, None) not in spec)
+        if gone:
+            kinds = sorted({'catchall' if not H[h]['names'] else 'named' for h in gone})
+            out.append((f'removed-handler-still-called({",".join(kinds)})',
+                        f'event {vid}: handlers {gone} ran although removeHandler() had removed them'))
+        late = sorted(h for h in H if ((h, ename) in spec or (h, None) in spec) and h in expected and False)
         extra = sorted(set(got) - set(expected))
         if extra:
             kinds = sorted({'catchall' if not H[h]['names'] else 'named' for h in extra if h in H})
